@@ -266,13 +266,14 @@ LedCall(g, op, a, b) ==
     \* make_mut through a root handle to a; b = id of the fresh allocation (0: none needed).
     \* Other strong handles exist: the value is CLONED into b and the old handle is dropped.
     \* Only Weak handles besides ours: the value is MOVED into b and a is given up.
-    [] op \in {"MakeMut", "MakeMutS"} ->
+    \* MakeMutP: the payload's Clone panics -- on the cloning branch nothing changes (b = 0)
+    [] op \in {"MakeMut", "MakeMutS", "MakeMutP"} ->
          IF b = 0 THEN g
          ELSE IF HandlesIn(g, a) > 1
          THEN \* MakeMutS: the payload's Clone creates an EMPTY value (no stored handle is re-shared)
               [g EXCEPT !.rootS[a] = @ - 1, !.rootS[b] = 1, !.made[b] = TRUE, !.fresh = b,
-                        !.valS[b] = IF op = "MakeMut" THEN g.valS[a] ELSE Zero1,
-                        !.valW[b] = IF op = "MakeMut" THEN g.valW[a] ELSE Zero1,
+                        !.valS[b] = IF op # "MakeMutS" THEN g.valS[a] ELSE Zero1,
+                        !.valW[b] = IF op # "MakeMutS" THEN g.valW[a] ELSE Zero1,
                         !.dtor[b] = g.dtor[a],
                         !.mvd[a] = @ + 1]
          ELSE [EraseRec(g, a) EXCEPT !.rootS[a] = @ - 1, !.rootS[b] = 1, !.made[b] = TRUE, !.fresh = b,
@@ -307,7 +308,7 @@ LedRet(g, op, a, b, d, ret) ==
                              THEN [EraseRec(g, a) EXCEPT !.rootS[a] = @ - 1, !.gone[a] = TRUE,
                                                          !.unw = @ \cup {a}, !.mvd[a] = @ + 1]
                              ELSE g
-    [] op \in {"MakeMut", "MakeMutS"} -> [g EXCEPT !.fresh = 0]
+    [] op \in {"MakeMut", "MakeMutS", "MakeMutP"} -> [g EXCEPT !.fresh = 0]
     [] op = "FromRaw"     -> [g EXCEPT !.raw[a] = @ - 1, !.rootS[a] = @ + 1]
     [] op = "WeakFromRaw" -> [g EXCEPT !.rawW[a] = @ - 1, !.rootW[a] = @ + 1]
     [] op = "IncStrong"   -> IF ret = "ok" THEN [g EXCEPT !.raw[a] = @ + 1] ELSE g
@@ -579,7 +580,13 @@ FreshObj(b) == ~led.made[b] /\ \A p \in Obj : p < b => led.made[p]
 OpMakeMutX(op, o, top, base) ==
   /\ led.rootS[o] > 0 /\ Intact(o) /\ ob.nd[o] = 0
   /\ IF heap.strong[o] # 1
-     THEN \* clone the value into a fresh allocation, then `*this = new` drops the old handle
+     THEN IF op = "MakeMutP"
+          THEN \* T::clone panics: the uninitialised allocation make_mut reserved is released
+               \* while the call unwinds (its value was never created: nothing is destroyed);
+               \* the handle, the value and every count are as before the call
+               Done(heap, op, o, 0, NoScript, "cpanic", top, base)
+          ELSE
+          \* clone the value into a fresh allocation, then `*this = new` drops the old handle
           \E b \in Obj :
             /\ FreshObj(b)
             /\ \A t \in Obj : Handles(t) + led.valS[o][t] <= Caps.strong + 1
@@ -667,6 +674,7 @@ CallOp(op, a, b, d, top, base) ==
     [] op = "GetMut"      -> OpGetMut(a, top, base)
     [] op = "MakeMut"     -> OpMakeMut(a, top, base)
     [] op = "MakeMutS"    -> OpMakeMutX("MakeMutS", a, top, base)
+    [] op = "MakeMutP"    -> OpMakeMutX("MakeMutP", a, top, base)
     [] op = "IntoRaw"     -> OpIntoRaw(a, top, base)
     [] op = "FromRaw"     -> OpFromRaw(a, top, base)
     [] op = "IncStrong"   -> OpIncStrong(a, top, base)
@@ -963,6 +971,7 @@ Call ==
      \/ En("GetMut")      /\ \E o \in Obj : OpGetMut(o, TRUE, <<>>)
      \/ En("MakeMut")     /\ \E o \in Obj : OpMakeMut(o, TRUE, <<>>)
      \/ En("MakeMutS")    /\ \E o \in Obj : OpMakeMutX("MakeMutS", o, TRUE, <<>>)
+     \/ En("MakeMutP")    /\ \E o \in Obj : OpMakeMutX("MakeMutP", o, TRUE, <<>>)
      \/ En("IntoRaw")     /\ \E o \in Obj : OpIntoRaw(o, TRUE, <<>>)
      \/ En("FromRaw")     /\ \E o \in Obj : OpFromRaw(o, TRUE, <<>>)
      \/ En("IncStrong")   /\ \E o \in Obj : OpIncStrong(o, TRUE, <<>>)
